@@ -1,0 +1,97 @@
+//go:build verif
+
+// Contracts for the deductive verifier in /verif (govc). Comment-only: this file adds no code.
+package parser
+
+//@ spec wsWeight(c int) int = ite(c == 32, 1, ite(c == 9, 4, 0))
+//@ spec spacesUpTo(t string, k int) int = ite(k <= 0, 0, spacesUpTo(t, k-1) + wsWeight(t[k-1]))
+
+//@ func calcSpaces
+//@   ensures [sum] result == spacesUpTo(text, len(text))
+//@   ensures [nonneg] result >= 0
+//@   loop 0 invariant [range] 0 <= i && i <= len(text)
+//@   loop 0 invariant [sum] s == spacesUpTo(text, i) && s >= 0
+//@   loop 0 decreases len(text) - i
+
+//@ func (*stack).Push
+//@   modifies *s, elems(*s)
+//@   ensures [len] len(*s) == old(len(*s)) + 1
+//@   ensures [top] (*s)[len(*s)-1] == o
+//@   ensures [keep] forall(i, 0, old(len(*s)), (*s)[i] == old((*s)[i]))
+
+//@ func (*stack).Pop
+//@   requires [nonempty] len(*s) > 0
+//@   modifies *s
+//@   ensures [ret] result == old((*s)[len(*s)-1])
+//@   ensures [len] len(*s) == old(len(*s)) - 1
+//@   ensures [keep] forall(i, 0, len(*s), (*s)[i] == old((*s)[i]))
+
+//@ func (*stack).Size
+//@   modifies nothing
+//@   ensures result == len(*s)
+
+//@ func (*stack).Peek
+//@   requires [nonempty] len(*s) > 0
+//@   modifies nothing
+//@   ensures result == (*s)[len(*s)-1]
+
+//@ func getPreviousIndent
+//@   modifies nothing
+//@   ensures result == ite(len(s) == 0, 0, s[len(s)-1])
+
+// ---- lexer state (C03, C01)
+
+//@ spec levelOK(lv slice) bool = forall(i, 0, len(lv), lv[i] > 0)
+//@ spec lexInv(s ref) bool = s != nil && s.spaces >= 0 && levelOK(s.level)
+//@ spec prevIndent(lv slice) int = ite(len(lv) == 0, 0, lv[len(lv)-1])
+
+// ls() looks the state up in a lock-free map keyed by the lexer address: trusted to be a function of l.
+//@ func ls
+//@   trusted
+//@   pure
+
+// ANTLR's token loop runs the lexer's *_Action callbacks (verified below) on this lexer's state and touches
+// nothing else of it: level and prevToken are written only by getNextToken.
+//@ func (*github.com/antlr/antlr4/runtime/Go/antlr.BaseLexer).NextToken
+//@   trusted
+//@   modifies reach(b), field("parser.lexerState.spaces"), field("parser.lexerState.linenum"), field("parser.lexerState.inSqBrackets"), field("parser.lexerState.parens"), field("parser.lexerState.blockTextLine"), field("parser.lexerState.gotNewLine"), field("parser.lexerState.gotHTTPVerb"), field("parser.lexerState.gotView"), field("parser.lexerState.noMoreImports")
+//@   ensures forallint(p, as("*lexerState", p).spaces >= 0)
+//@   ensures result != nil
+
+//@ func (*github.com/antlr/antlr4/runtime/Go/antlr.BaseLexer).GetText
+//@   trusted
+//@   noeffect
+
+// Every lexer action keeps spaces >= 0 and leaves level / prevToken alone (frame), whatever the action index.
+//@ func (*SyslLexer).%_Action
+//@   maypanic
+//@   requires ls(l) != nil && ls(l).spaces >= 0
+//@   modifies reach(l), ls(l).spaces, ls(l).linenum, ls(l).inSqBrackets, ls(l).parens, ls(l).blockTextLine, ls(l).gotNewLine, ls(l).gotHTTPVerb, ls(l).gotView, ls(l).noMoreImports
+//@   ensures [spaces-nonneg] ls(l).spaces >= 0
+
+//@ func getNextToken
+//@   requires l != nil && l.BaseLexer != nil
+//@   requires [inv] lexInv(ls(l))
+//@   ensures [inv] lexInv(ls(l))
+//@   loop 0 invariant [inv] lexInv(ls)
+//@   loop 0 decreases ite(ls.spaces == prevIndent(ls.level), 0, ite(ls.spaces > prevIndent(ls.level), 1, 1 + len(ls.level)))
+//@   loop 0 step [spaces-kept] ls.spaces == hdr(ls.spaces)
+//@   loop 0 step [push] implies(hdr(ls.spaces) > hdr(prevIndent(ls.level)), len(ls.level) == hdr(len(ls.level)) + 1 && prevIndent(ls.level) == ls.spaces && forall(i, 0, hdr(len(ls.level)), ls.level[i] == hdr(ls.level[i])))
+//@   loop 0 step [pop] implies(hdr(ls.spaces) < hdr(prevIndent(ls.level)), len(ls.level) == hdr(len(ls.level)) - 1 && forall(i, 0, len(ls.level), ls.level[i] == hdr(ls.level[i])))
+//@   loop 0 step [one-token] len(ls.prevToken) == hdr(len(ls.prevToken)) + 1
+//@   loop 0 step [indent-token] implies(hdr(ls.spaces) > hdr(prevIndent(ls.level)), as("*antlr.CommonToken", ls.prevToken[len(ls.prevToken)-1]).tokenType == SyslLexerINDENT)
+//@   loop 0 step [dedent-token] implies(hdr(ls.spaces) < hdr(prevIndent(ls.level)), as("*antlr.CommonToken", ls.prevToken[len(ls.prevToken)-1]).tokenType == SyslLexerDEDENT)
+//@   ensures [dequeue-frame] implies(old(len(ls(l).prevToken)) > 0, ls(l).level == old(ls(l).level) && ls(l).spaces == old(ls(l).spaces) && ls(l).gotNewLine == old(ls(l).gotNewLine) && len(ls(l).prevToken) == old(len(ls(l).prevToken)) - 1)
+
+//@ func github.com/antlr/antlr4/runtime/Go/antlr.NewCommonToken
+//@   trusted
+//@   noeffect
+//@   fresh
+//@   ensures result != nil && result.tokenType == tokenType
+
+// ---- spec-level lemmas (C03): the indentation decision depends only on order, so it is invariant under
+// scaling every indentation width by the same factor k in 1..4, and a tab counts exactly like four spaces.
+//@ lemma tabIsFourSpaces() bool = wsWeight(9) == 4 * wsWeight(32) && wsWeight(10) == 0
+//@ lemma cmpScaleInvariant(sp int, pv int) bool = ((2*sp > 2*pv) == (sp > pv)) && ((3*sp > 3*pv) == (sp > pv)) && ((4*sp > 4*pv) == (sp > pv)) && ((2*sp < 2*pv) == (sp < pv)) && ((3*sp < 3*pv) == (sp < pv)) && ((4*sp < 4*pv) == (sp < pv)) && ((2*sp == 2*pv) == (sp == pv)) && ((3*sp == 3*pv) == (sp == pv)) && ((4*sp == 4*pv) == (sp == pv))
+//@ lemma spacesStep(t string, k int) bool = k >= 1 && k <= len(t) ==> spacesUpTo(t, k) == spacesUpTo(t, k-1) + wsWeight(t[k-1])
+//@ lemma spacesNonneg0(t string) bool = spacesUpTo(t, 0) == 0
